@@ -16,7 +16,7 @@ def lexer_stages(chk, only=None):
         ("whole", 4 if q else 5, (), None),
         ("string", 5 if q else 7, ("Quote",), ["Quote", "Bslash", "L_u", "L_bf", "L_hex", "L_nrt", "L_e", "D19", "LF", "Blank",
                                                  "UDigit", "ULineSep", "UAlnum", "L_other", "Slash", "Ctrl"]),
-        ("unicode-escape", 8 if q else 9, ("Quote", "Bslash", "L_u"), ["D19", "L_hex", "L_e", "UDigit", "UAlnum", "L_other", "Quote"]),
+        ("unicode-escape", 8 if q else 9, ("Quote", "Bslash", "L_u"), ["D0", "D19", "L_hex", "L_x", "UDigit", "UAlnum", "L_other", "Quote"]),
         ("block", 7 if q else 9, ("Quote", "Quote", "Quote"), ["Quote", "Bslash", "LF", "CR", "Blank", "ULineSep", "UBlank", "L_other", "Ctrl"]),
         ("number", 5 if q else 7, (), ["Minus", "Plus", "Dot", "D0", "D19", "L_e", "UDigit", "L_other", "Blank", "Punct"]),
     ]
@@ -41,12 +41,34 @@ def grammar_corpus(chk):
               "UnionTypeDefinition", "EnumTypeDefinition", "InputObjectTypeDefinition", "DirectiveDefinition",
               "TypeSystemExtension"]:
         specs.append((d, True, False, 10 if q else 12))
+    # focused generation: longer sentences behind a fixed prefix, so that the interiors of variable definitions,
+    # arguments, type-system members ... are reached exhaustively as well
+    d = 0 if q else 2
+    focus = [(("query", "(", "$", "name", ":", "name"), 15 + d, False, False), (("query", "(", "$", "name", ":", "["), 14 + d, False, False),
+             (("{", "name", "("), 11 + d, False, False), (("{", "..."), 10 + d, False, False), (("{", "name", "@"), 11 + d, False, False),
+             (("fragment", "fragname"), 11 + d, False, False), (("fragment", "fragname", "("), 14 + d, False, True),
+             (("type", "name", "{", "name"), 12 + d, True, False), (("type", "name", "implements"), 10 + d, True, False),
+             (("input", "name", "{", "name", ":"), 12 + d, True, False), (("directive", "@", "name", "("), 13 + d, True, False),
+             (("enum", "name", "{"), 10 + d, True, False), (("extend", "type", "name"), 10 + d, True, False),
+             (("string",), 8 + d, True, False), (("schema",), 11 + d, True, False)]
     items = []
+    seen = set()
     for start, ts, fv, n in specs:
         sk = corpus.skeletons(chk, start, ts, fv, n)
         chk.count("grammar/%s/ts=%d,fv=%d" % (start, ts, fv), len(sk))
         for s in sk:
+            seen.add((start, ts, fv, tuple(s["toks"])))
             items.append({"toks": s["toks"], "ev": s["ev"], "start": start, "ts": ts, "fv": fv})
+    for prefix, n, ts, fv in focus:
+        sk = corpus.skeletons(chk, "Document", ts, fv, n, prefix=prefix)
+        k = 0
+        for s in sk:
+            key = ("Document", ts, fv, tuple(s["toks"]))
+            if key not in seen:
+                seen.add(key)
+                k += 1
+                items.append({"toks": s["toks"], "ev": s["ev"], "start": "Document", "ts": ts, "fv": fv})
+        chk.count("grammar/focus:%s/ts=%d,fv=%d" % (" ".join(prefix), ts, fv), k)
     return items
 
 
@@ -64,10 +86,17 @@ def judged_cases(chk, items, rng, nmut, ncross):
             r["text"] = t["text"]
         start = it["start"] if it["start"] in ("Value", "Type") else "Document"
         for ts, fv in langreplay.FLAGSETS:
-            traces.append({"toks": [{"k": r["k"], "v": r["v"]} for r in recs], "ev": [], "ce": False, "start": start, "ts": ts, "fv": fv})
+            traces.append({"toks": [{"k": r["k"], "v": r["v"]} for r in recs], "ev": [], "ce": False, "ck": False, "start": start, "ts": ts, "fv": fv})
             meta.append((recs, start, ts, fv, "cross", "cross/from=%s,%s" % (it["start"], langreplay.flagstr(it["ts"], it["fv"]))))
-    # (ii) single-token mutations under the generating dialect
-    for it in docs[:nmut]:
+    # (ii) single-token mutations under the generating dialect, the same number for every dialect / entry point
+    groups = {}
+    for it in docs:
+        groups.setdefault((it["start"], it["ts"], it["fv"]), []).append(it)
+    per = max(1, nmut // len(groups))
+    chosen = []
+    for g in groups.values():
+        chosen += [g[i % len(g)] for i in range(per)]
+    for it in chosen:
         text, tokens = corpus.render(it["toks"], rng)
         recs = corpus.trace_tokens(tokens)
         start = it["start"] if it["start"] in ("Value", "Type") else "Document"
@@ -80,7 +109,7 @@ def judged_cases(chk, items, rng, nmut, ncross):
                 return "EOF"
             return m[j]["v"] if m[j]["k"] == "name" else m[j]["k"]
         ctx = "mut=%s/prev=%s/next=%s" % (label, kd(i - 1), kd(i + 1))
-        traces.append({"toks": [{"k": r["k"], "v": r["v"]} for r in m], "ev": [], "ce": False, "start": start, "ts": it["ts"], "fv": it["fv"]})
+        traces.append({"toks": [{"k": r["k"], "v": r["v"]} for r in m], "ev": [], "ce": False, "ck": False, "start": start, "ts": it["ts"], "fv": it["fv"]})
         meta.append((m, start, it["ts"], it["fv"], label, ctx))
     acc = langreplay.tlc_judge(chk, traces, "GqlGrammarTrace judged sequences")
     cases = []
